@@ -70,6 +70,8 @@ func (e *Engine) sha1Sym(in []Term) []Term {
 		}
 		if len(in) > 0 {
 			e.recordHash("sha1", len(in), ConcatBytes(in), ConcatBytes(out))
+		} else {
+			e.recordHash("sha1", 0, BV(1, 0), ConcatBytes(out))
 		}
 		return out
 	}
